@@ -10,6 +10,7 @@ import (
 	"seehuhn.de/go/sfnt/glyph"
 	"seehuhn.de/go/sfnt/opentype/classdef"
 	"seehuhn.de/go/sfnt/opentype/gdef"
+	"seehuhn.de/go/sfnt/opentype/gtab"
 
 	"verif/harness/internal/gen/otlmini"
 	"verif/harness/internal/mon"
@@ -60,6 +61,23 @@ func c07layouter(c *mon.Ctx) {
 		sub := g.GenList(otlmini.GsubKinds[r.IntN(len(otlmini.GsubKinds))], otlmini.FlagSet(r.IntN(int(otlmini.NumFlagSets))), 1+r.IntN(3), 1+r.IntN(2), true)
 		font.Gsub = c07info(sub.LL)
 		font.Gsub.FeatureList[0].Lookups = sub.Lookups
+		if r.IntN(4) == 0 && len(sub.Lookups) > 0 {
+			// several language systems with equally many features that use
+			// different lookups; the language asked for (en-US) is none of
+			// them: which one the layouter falls back to must not vary from
+			// one NewLayouter call to the next
+			part := sub.Lookups[:1+r.IntN(len(sub.Lookups))]
+			font.Gsub.FeatureList = append(font.Gsub.FeatureList,
+				&gtab.Feature{Tag: "test", Lookups: append([]gtab.LookupIndex{}, part...)},
+				&gtab.Feature{Tag: "test", Lookups: nil})
+			sl := gtab.ScriptListInfo{}
+			tags := []string{"de-Latn-x-latn-deu", "tr-Latn-x-latn-trk", "nl-Latn-x-latn-nld", "und-Cyrl-x-cyrl"}
+			for i, tag := range tags[:2+r.IntN(3)] {
+				sl[language.MustParse(tag)] = &gtab.Features{Required: gtab.FeatureIndex(i % 3)}
+			}
+			font.Gsub.ScriptList = sl
+			k.Class("layouter:tied-language-systems")
+		}
 		font.Gpos = nil
 		if r.IntN(2) == 0 {
 			pos := g.GenList(otlmini.GposKinds[r.IntN(len(otlmini.GposKinds))], otlmini.FlagSet(r.IntN(int(otlmini.NumFlagSets))), 1+r.IntN(3), 1+r.IntN(2), true)
